@@ -5,3 +5,4 @@ import LalModel.Props.C02
 #print axioms Lal.Props.C02.joiner_waits_iff_video_known
 #print axioms Lal.Props.C02.waiting_holds_only_headers
 #print axioms Lal.Props.C02.cached_gops_start_with_key_frame
+#print axioms Lal.Props.C02.ts_gop_cache_is_queue
